@@ -34,6 +34,7 @@ type Env struct {
 	hdrIssued bool
 
 	EverOverflow bool // some transaction enabled the overflow area on this file
+	switched     bool // the running commit passed commit/switched
 	injAtBegin   int  // injected failures at the begin of the running transaction
 	inCommit  bool
 
@@ -203,6 +204,7 @@ func (e *Env) sink(ev txfile.VerifEvent) {
 		e.hdrIssued = true
 	case "commit/switched":
 		e.Emit(core.Event{"ev": "CommitSwitched", "st": e.St()})
+		e.applyTxToLive()
 	}
 	if e.OnPoint != nil && ev.File != nil {
 		e.OnPoint(ev.Point)
@@ -565,18 +567,32 @@ func (e *Env) ReadW(id uint64) {
 	e.Emit(core.Event{"ev": "ReadW", "id": id, "q": q, "err": ErrKind(err)})
 }
 
-func (e *Env) endTx(committed bool) {
-	if committed {
-		for id := range e.TxFreed {
-			delete(e.Live, id)
+// applyTxToLive updates the driver's view of the committed pages (from the
+// commit/switched hook on: readers that begin now see the new state).
+func (e *Env) applyTxToLive() {
+	live := map[uint64]bool{}
+	for id := range e.Live {
+		if !e.TxFreed[id] {
+			live[id] = true
 		}
-		for id := range e.TxNew {
-			if !e.TxFreed[id] {
-				e.Live[id] = true
-			}
-		}
-		e.Root = e.TxRoot
 	}
+	for id := range e.TxNew {
+		if !e.TxFreed[id] {
+			live[id] = true
+		}
+	}
+	e.mu.Lock()
+	e.Live = live
+	e.mu.Unlock()
+	e.Root = e.TxRoot
+	e.switched = true
+}
+
+func (e *Env) endTx(committed bool) {
+	if committed && !e.switched {
+		e.applyTxToLive()
+	}
+	e.switched = false
 	e.Tx, e.TxNew, e.TxFreed, e.TxDirty, e.TxFlush = nil, nil, nil, nil, nil
 	e.inCommit = false
 }
